@@ -13,6 +13,7 @@ Open Scope N_scope.
     - whatever the result: [src] still reads [c], still names inode [i], inode [i] still holds [c];
     - every other file except the one [dst] named is unchanged, and no directory entry
       disappeared or was redirected. *)
+(* corollary of C18_copy_faults for the oracle that never faults *)
 Theorem C18_copy : forall s src dst i c s' r,
   wf s -> stat s src = Ok i -> inode s i = Some (File c) ->
   copy_file s src dst = (s', r) ->
@@ -43,6 +44,68 @@ Theorem C18_move : forall s src dst i c s' r,
 Proof. exact move_file_safe. Qed.
 Print Assumptions C18_move.
 
+(** ** Faults.  Every system call the two functions make may fail: the oracle [F : site -> choice]
+    picks, per call site (rename, open, src.Stat, os.Stat(dest), create, io.Copy, remove), normal
+    behaviour, failure without effect, or — for io.Copy — "only the first n bytes were stored, then
+    an error" (ENOSPC, EIO, a signal ...).  The statements hold for every oracle, with one
+    exception that is real: [stat_fault_harmless] excludes a spurious failure of os.Stat(dest)
+    while dest is in fact the source — the code treats every Stat error as "does not exist" and
+    goes on to truncate (see [copy_stat_fault_on_alias_refuted]). *)
+
+(** CopyFile under faults: whatever fails, the source still reads [c] through the same inode, every
+    file other than the one [dst] named is intact, no directory entry is lost; nil still means the
+    destination is complete.  The destination itself is NOT protected on error: an existing
+    destination file is either untouched or holds some prefix of [c] (possibly empty: truncated). *)
+Theorem C18_copy_faults : forall F s src dst i c s' r,
+  wf s -> stat s src = Ok i -> inode s i = Some (File c) -> stat_fault_harmless F s dst i ->
+  copy_file_f F s src dst = (s', r) ->
+  (r = None -> read_path s' dst = Some c /\ stat s' dst <> Ok i)
+  /\ read_path s' src = Some c
+  /\ stat s' src = Ok i /\ inode s' i = Some (File c)
+  /\ (forall j n, inode s j = Some n -> stat s dst <> Ok j -> inode s' j = Some n)
+  /\ (forall e, slot s e <> Empty -> slot s' e = slot s e)
+  /\ (forall d old, stat s dst = Ok d -> inode s d = Some (File old) ->
+        inode s' d = Some (File old) \/ exists k, inode s' d = Some (File (firstn k c))).
+Proof. exact copy_file_f_safe. Qed.
+Print Assumptions C18_copy_faults.
+
+(** MoveFile under faults: an error — from rename, any step of the fallback copy (a partial
+    write included) or the final remove — leaves the source entry and its content intact; the
+    source entry is empty afterwards ONLY IF the destination reads the complete content. *)
+Theorem C18_move_faults : forall F s src dst i c s' r,
+  wf s -> slot s src = Link i -> inode s i = Some (File c) -> stat_fault_harmless F s dst i ->
+  move_file_f F s src dst = (s', r) ->
+  (r = None ->
+     read_path s' dst = Some c
+     /\ (slot s' src = Empty \/ (stat s dst = Ok i /\ slot s' src = Link i /\ inode s' i = Some (File c))))
+  /\ (r <> None -> slot s' src = Link i /\ inode s' i = Some (File c))
+  /\ (forall j n, inode s j = Some n -> stat s dst <> Ok j -> inode s' j = Some n)
+  /\ (slot s' src = Empty -> read_path s' dst = Some c).
+Proof. exact move_file_f_safe. Qed.
+Print Assumptions C18_move_faults.
+
+(** When rename fails, the copy succeeds and the final Remove fails with [e]: MoveFile returns [e]
+    and both copies are present — the destination complete, the source untouched. *)
+Theorem C18_move_remove_fails : forall F s src dst i c s1 e,
+  wf s -> slot s src = Link i -> inode s i = Some (File c) -> stat_fault_harmless F s dst i ->
+  (forall s0, faulty (F SRename) (rename s src dst) <> Ok s0) ->
+  copy_file_f F s src dst = (s1, None) -> F SRemove = Fail e ->
+  move_file_f F s src dst = (s1, Some e)
+  /\ read_path s1 dst = Some c /\ read_path s1 src = Some c /\ slot s1 src = Link i /\ stat s1 dst <> Ok i.
+Proof. exact move_file_remove_fails. Qed.
+Print Assumptions C18_move_remove_fails.
+
+(** The excluded fault is a real window of the present code: with only os.Stat(dest) failing and
+    dest an alias of the source, CopyFile returns nil and the non-empty source reads as empty. *)
+Theorem copy_stat_fault_on_alias_refuted :
+  exists F s src dst i c,
+    wf s /\ stat s src = Ok i /\ inode s i = Some (File c) /\ c <> []
+    /\ (forall st, st <> SStatDst -> F st = Pass) /\ stat s dst = Ok i
+    /\ snd (copy_file_f F s src dst) = None
+    /\ read_path (fst (copy_file_f F s src dst)) src = Some [].
+Proof. exact copy_stat_fault_on_alias_loses. Qed.
+Print Assumptions copy_stat_fault_on_alias_refuted.
+
 (** The repaired defect (pinned commit, before "fix: CopyFile truncates the source when target
     is the same file"): without the os.SameFile test the same model loses content — CopyFile
     returns nil and the non-empty source reads as empty afterwards. *)
@@ -59,8 +122,12 @@ Theorem C18_scenarios_covered : forall k od c,
   wf (scenario k od false c)
   /\ slot (scenario k od false c) src_path = Link 0
   /\ stat (scenario k od false c) src_path = Ok 0
-  /\ inode (scenario k od false c) 0 = Some (File c).
-Proof. intros k od c. split; [exact (scenario_wf k od false c) | exact (scenario_source k od c)]. Qed.
+  /\ inode (scenario k od false c) 0 = Some (File c)
+  /\ stat_fault_harmless (scenario_faults k) (scenario k od false c) (dst_path k) 0.
+Proof.
+  intros k od c. split; [exact (scenario_wf k od false c) |].
+  destruct (scenario_source k od c) as (H1 & H2 & H3). repeat split; auto. exact (scenario_faults_harmless k _ _ _).
+Qed.
 Print Assumptions C18_scenarios_covered.
 
 (** Non-vacuity.  Old code on: same path, "./" spelling, symlink to the source, hard link — the
@@ -86,11 +153,15 @@ Example C18_move_cross_device_symlink :
   model_fields 1 4 1 0 1 = [false; true; true; true; true].
 Proof. vm_compute. reflexivity. Qed.
 
-(** PARTIAL.  Proved: the statements above, for every file system state, aliasing relation and
-    content, under the system-call semantics of Model/FileOps.v.  Not modelled, hence not
-    covered: a write that stores fewer bytes than requested or fails midway (ENOSPC, EIO,
-    EDQUOT, signals), permission errors, other processes changing the files during the call,
-    crash consistency; MoveFile with a source path that is itself a symbolic link (rename moves
-    the link; outside the property's quantifier).  In the first group io.Copy returns an error
-    after the destination was truncated; the source is only read, so "error => source intact"
-    is expected to survive, but that is not proved here. *)
+(** fault scenarios: a short write (ENOSPC) on the copy to /dev/full across devices — error, source intact *)
+Example C18_devfull :
+  model_fields 0 10 1 0 1 = [false; true; true; false; true]
+  /\ model_fields 1 10 1 0 1 = [false; true; true; false; true]
+  /\ model_fields 1 11 1 0 1 = [false; true; true; false; true].
+Proof. vm_compute. repeat split; reflexivity. Qed.
+
+(** PARTIAL.  Proved: the statements above, for every file system state, aliasing relation,
+    content and fault oracle (with the one excluded fault named above), under the system-call
+    semantics of Model/FileOps.v.  Not modelled, hence not covered: other processes changing the
+    files during the call, crash consistency.  MoveFile with a source path that is itself a
+    symbolic link is outside the property's quantifier (rename moves the link). *)
